@@ -46,6 +46,9 @@ func runDecl(c *Ctx) {
 	idx := 0
 	lists := c18NameLists()
 	n := 3
+	if c.Thorough() {
+		n = 4
+	}
 	seqsUpTo(lists, n, func(seq []string) {
 		idx++
 		if c.Mine(idx) && c.Begin("decl-opts", strings.Join(seq, ";")) {
@@ -220,7 +223,7 @@ func declArgsCase(c *Ctx, seq []string) {
 	}
 	app := cli.App("app", "")
 	app.ErrorHandling = flag.ContinueOnError
-	vars := make([]*[]string, len(seq))
+	vars := make([]func() string, len(seq))
 	gotPanic, panicVal := -1, interface{}(nil)
 	for i, n := range seq {
 		func() {
@@ -230,16 +233,11 @@ func declArgsCase(c *Ctx, seq []string) {
 				}
 			}()
 			if i%2 == 0 {
-				vars[i] = app.StringsArg(n, nil, "")
+				l := app.StringsArg(n, nil, "")
+				vars[i] = func() string { return strings.Join(*l, ",") }
 			} else {
 				s := app.StringArg(n, "", "")
-				l := &[]string{}
-				vars[i] = l
-				app.Before = func() {
-					if *s != "" {
-						*l = []string{*s}
-					}
-				}
+				vars[i] = func() string { return *s }
 			}
 		}()
 		if gotPanic >= 0 {
@@ -267,7 +265,7 @@ func declArgsCase(c *Ctx, seq []string) {
 	app.Action = func() {
 		ran++
 		for _, v := range vars {
-			got = append(got, strings.Join(*v, ","))
+			got = append(got, v())
 		}
 	}
 	sharedBuf.Reset()
